@@ -476,7 +476,7 @@ def sharing(case):
     return out
 
 
-RUN_KINDS = ("fig", "gallery", "table")
+RUN_KINDS = ("fig", "gallery", "table", "imgpara")
 FOLLOWERS = ("end", "head", "table", "gallery", "pre", "para", "list")
 
 
@@ -490,6 +490,8 @@ def block_runs(case):
             if b["b"] == "sec":
                 flat.append({"b": "head"})
                 flat.append({"b": "para"})
+            elif b["b"] == "para" and b["xs"] and all(x["t"] == "img" for x in b["xs"]):
+                flat.append({"b": "imgpara"})           # a paragraph that holds nothing but inline image(s)
             else:
                 flat.append(b)
         k = 0
